@@ -66,6 +66,10 @@ def check(ctx: Ctx) -> str:
     ctx.use("bccache")
     bucket_key_inputs_rule(ctx, "R6")
 
+    from ..lexrules import group_coverage_rule
+
+    group_coverage_rule(ctx, "R7")
+
     ctx.rule("R4", "syntax errors default to the line of the current token")
     pf = repo.func("parser:Parser.fail")
     s = ast.unparse(pf.node)
